@@ -814,6 +814,9 @@ func (self *AofChannel) Push(dbId uint8, lock *Lock, commandType uint8, lockComm
 	if lockCommand.TimeoutFlag&protocol.TIMEOUT_FLAG_RCOUNT_IS_PRIORITY != 0 {
 		aofLock.AofFlag |= AOF_FLAG_RCOUNT_IS_PRIORITY
 	}
+	if unLockCommand != nil && unLockCommand.TimeoutFlag&protocol.TIMEOUT_FLAG_RCOUNT_IS_PRIORITY != 0 {
+		aofLock.AofFlag |= AOF_FLAG_RCOUNT_IS_PRIORITY
+	}
 	aofLock.HandleType = AOF_LOCK_TYPE_FILE
 	if lockData != nil {
 		aofLock.AofFlag |= AOF_FLAG_CONTAINS_DATA
